@@ -1,5 +1,6 @@
 import HbsModel.Registry
 import HbsModel.Lemmas.Text
+import HbsModel.Props.C03
 /-
   C11  Whitespace control removes exactly the whitespace the rules name.
 -/
@@ -61,5 +62,129 @@ theorem standalone_iff (stk : List Tmpl) (src : Str) (s e : Nat) (isPartial : Bo
     two tilde flags (stated on the classification used by the loop) -/
 theorem expression_is_not_block_start : isBlockStart (some .r_expression) = false ∧
     isBlockStart (some .r_html_expression) = false := by decide
+
+/-! ### the standalone-line rule at source level, for a comment tag (from `C03.text_around_comment_is_kept`) -/
+
+theorem dropWhile_blank_append (ind rest : Str) (hind : ∀ ch ∈ ind, isBlank ch = true)
+    (hrest : rest = [] ∨ ∃ x r, rest = x :: r ∧ isBlank x = false) :
+    (ind ++ rest).dropWhile isBlank = rest := by
+  induction ind with
+  | nil =>
+    rcases hrest with rfl | ⟨x, r, rfl, hx⟩
+    · rfl
+    · simp [List.dropWhile, hx]
+  | cons a ind ih =>
+    have ha := hind a (by simp)
+    simp only [List.cons_append, List.dropWhile, ha]
+    exact ih (fun ch h => hind ch (by simp [h]))
+
+theorem trimEndBlank_append (L0 ind : Str) (hind : ∀ ch ∈ ind, isBlank ch = true)
+    (hL0 : L0 = [] ∨ ∃ x, L0.getLast? = some x ∧ isBlank x = false) :
+    trimEndBlank (L0 ++ ind) = L0 := by
+  unfold trimEndBlank dropWhileEnd
+  rw [List.reverse_append]
+  have := dropWhile_blank_append ind.reverse L0.reverse (fun ch h => hind ch (by simpa using h))
+    (by
+      rcases hL0 with rfl | ⟨x, hx, hb⟩
+      · left; rfl
+      · right
+        cases hr : L0.reverse with
+        | nil => simp at hr; subst hr; simp at hx
+        | cons y r =>
+          refine ⟨y, r, rfl, ?_⟩
+          have : L0.getLast? = some y := by
+            rw [← List.head?_reverse, hr]; rfl
+          rw [this] at hx; cases hx; exact hb)
+  rw [this, List.reverse_reverse]
+
+/-- **a comment alone on its line contributes no whitespace of its own**: the indentation in front of it,
+    the blanks behind it and the line break (LF or CRLF) are removed, and nothing else – for EVERY text
+    `L0` ending a line (or empty: the start of the template counts as a line boundary), every
+    indentation, every comment body, every following text `R1` -/
+theorem comment_alone_on_its_line (r : Registry) (fs : FS) (L0 ind c ind2 nl R1 : Str) (data : Json)
+    (hdev : r.dev = false)
+    (hL0 : L0 = [] ∨ L0.getLast? = some '\n') (hopen : C03.noOpen L0)
+    (hind : ∀ ch ∈ ind, isBlank ch = true) (hind2 : ∀ ch ∈ ind2, isBlank ch = true)
+    (hnl : nl = ['\n'] ∨ nl = ['\r', '\n'])
+    (hc : C03.CommentText c) (hd : C03.noDash c) (hR1 : C03.noOpen R1) :
+    r.renderTemplate fs ((L0 ++ ind) ++ C03.comment c ++ (ind2 ++ nl ++ R1)) data = .ok (L0 ++ R1) := by
+  have hL0' : L0 = [] ∨ ∃ x, L0.getLast? = some x ∧ isBlank x = false := by
+    rcases hL0 with h | h
+    · left; exact h
+    · right; exact ⟨'\n', h, by decide⟩
+  have htrimL : trimEndBlank (L0 ++ ind) = L0 := trimEndBlank_append L0 ind hind hL0'
+  have hnlhead : ∃ x rr, nl ++ R1 = x :: rr ∧ isBlank x = false ∧ isNewline x = true := by
+    rcases hnl with rfl | rfl
+    · exact ⟨'\n', R1, rfl, by decide, by decide⟩
+    · exact ⟨'\r', '\n' :: R1, rfl, by decide, by decide⟩
+  obtain ⟨x, rr, hx, hxb, hxn⟩ := hnlhead
+  have htrimR : trimStartBlank (ind2 ++ nl ++ R1) = nl ++ R1 := by
+    unfold trimStartBlank
+    rw [List.append_assoc]
+    exact dropWhile_blank_append ind2 (nl ++ R1) hind2 (Or.inr ⟨x, rr, hx, hxb⟩)
+  have hstrip : stripFirstNewline (nl ++ R1) = R1 := by
+    rcases hnl with rfl | rfl <;> simp [stripFirstNewline]
+  have hsa : C03.standalone (L0 ++ ind) (ind2 ++ nl ++ R1) false = true := by
+    simp only [C03.standalone, PlainText.standalone, startsWithEmptyLine, endsWithEmptyLine, htrimL, htrimR, hx, startsWithNewline, hxn,
+      Bool.true_or, Bool.true_and]
+    rcases hL0 with rfl | h
+    · rfl
+    · have : isNewline '\n' = true := by decide
+      simp [endsWithNewline, h, this]
+  -- the hypotheses of the text theorem
+  have hLtext : L0 ++ ind = [] ∨ C03.TextBeforeTag (L0 ++ ind) := by
+    by_cases he : L0 ++ ind = []
+    · left; exact he
+    · right
+      have hlast : ∃ y, (L0 ++ ind).getLast? = some y ∧ (isBlank y = true ∨ y = '\n') := by
+        by_cases hi : ind = []
+        · subst hi
+          rcases hL0 with rfl | h
+          · simp at he
+          · exact ⟨'\n', by simpa using h, Or.inr rfl⟩
+        · cases hg : ind.getLast? with
+          | none => simp [List.getLast?_eq_none_iff] at hg; exact absurd hg hi
+          | some y => exact ⟨y, by simp [List.getLast?_append, hg], Or.inl (hind y (List.mem_of_getLast? hg))⟩
+      obtain ⟨y, hy, hyb⟩ := hlast
+      refine ⟨?_, ?_, ?_⟩
+      · exact PlainText.noOpen_append_blank L0 ind hopen hind
+      · rw [hy]; rcases hyb with h | rfl
+        · intro e; cases e; simp [isBlank] at h
+        · decide
+      · rw [hy]; rcases hyb with h | rfl
+        · intro e; cases e; simp [isBlank] at h
+        · decide
+  have hRtext : C03.noOpen (ind2 ++ nl ++ R1) := by
+    rw [List.append_assoc]
+    apply PlainText.noOpen_blank_append ind2 _ hind2
+    rcases hnl with rfl | rfl
+    · exact PlainText.noOpen_cons '\n' R1 (by decide) hR1
+    · exact PlainText.noOpen_cons '\r' _ (by decide) (PlainText.noOpen_cons '\n' R1 (by decide) hR1)
+  have := C03.text_around_comment_is_kept r fs (L0 ++ ind) c (ind2 ++ nl ++ R1) data hdev hLtext hc hd hRtext
+  rw [this, hsa]
+  simp only [↓reduceIte, htrimL, htrimR, hstrip]
+
+/-- **a line that holds any other text keeps all its whitespace**: when something other than blanks
+    stands on the comment's line – before it or behind it – nothing is removed at all -/
+theorem comment_beside_text_keeps_whitespace (r : Registry) (fs : FS) (L c R : Str) (data : Json) (hdev : r.dev = false)
+    (hL : L = [] ∨ C03.TextBeforeTag L) (hc : C03.CommentText c) (hd : C03.noDash c) (hR : C03.noOpen R)
+    (htext : (∃ x, (trimEndBlank L).getLast? = some x ∧ isNewline x = false)
+           ∨ (∃ x rr, trimStartBlank R = x :: rr ∧ isNewline x = false)) :
+    r.renderTemplate fs (L ++ C03.comment c ++ R) data = .ok (L ++ R) := by
+  have hsa : C03.standalone L R false = false := by
+    simp only [C03.standalone, PlainText.standalone, startsWithEmptyLine, endsWithEmptyLine]
+    rcases htext with ⟨x, hx, hn⟩ | ⟨x, rr, hx, hn⟩
+    · have hne : (trimEndBlank L).isEmpty = false := by
+        cases h : trimEndBlank L with
+        | nil => rw [h] at hx; simp at hx
+        | cons a t => rfl
+      simp [endsWithNewline, hx, hn, hne]
+    · simp [hx, startsWithNewline, hn]
+  rw [C03.text_around_comment_is_kept r fs L c R data hdev hL hc hd hR, hsa]
+  simp
+
+/-- non-vacuity of both line shapes -/
+example : (trimEndBlank ['a', '\n', 'b', ' ', ' ']).getLast? = some 'b' ∧ trimStartBlank [' ', 'x', '\n'] = ['x', '\n'] := by
+  decide
 
 end Hbs.C11
